@@ -102,6 +102,48 @@ class ExhaustiveSubsets(Fam):
                         yield dict(a=av, b=bv, dta=dta, dtb=dtb, place=pname)
 
 
+class ByteOrder(Fam):
+    """arrays in non-native byte order: the functions may refuse them (ValueError) but must never report a wrong value"""
+    name = 'non-native-byte-order'
+    judge = 'Judge_C02'
+    exhaustive = True
+    rule = ('pairs of sets with values >= 256 stored big-endian (>i2 >u2 >i4 >u4 >i8 >u8) on either side: a refusal is accepted, a reported '
+            'value must be the correctly rounded ratio')
+
+    def inputs(self, ctx):
+        sets = [[1, 300, 1000], [300, 1000, 30000], [2, 257, 258, 1000], [256], []]
+        for dta in DTYPES:
+            for dtb in DTYPES:
+                for swap in ('a', 'b', 'ab'):
+                    for A in sets:
+                        for B in sets:
+                            yield dict(a=A, b=B, dta=dta, dtb=dtb, swap=swap)
+
+    def execute(self, inp):
+        ra, rb = ranks(inp['a'], inp['b'])
+        r = dict(a=ra, b=rb, dta=inp['dta'], dtb=inp['dtb'], ok=True, err='')
+        D = None
+        a = np.array(inp['a'], dtype=('>' if 'a' in inp['swap'] else '<') + inp['dta'])
+        b = np.array(inp['b'], dtype=('>' if 'b' in inp['swap'] else '<') + inp['dtb'])
+        vals = {}
+        for name, f, x, y in (('dab', jaccarddist, a, b), ('dba', jaccarddist, b, a), ('jab', jaccard, a, b), ('jba', jaccard, b, a)):
+            try:
+                vals[name] = f(x, y)
+            except (ValueError, TypeError):
+                vals[name] = None                      # refused: nothing reported
+        ref = np.array(inp['a'], dtype='u8'), np.array(inp['b'], dtype='u8')
+        # a refused call is replaced by the value of the same call on native arrays (judged anyway), so only REPORTED wrong values are rejected
+        r['dab'] = f32_fields(vals['dab'] if vals['dab'] is not None else jaccarddist(*ref))
+        r['dba'] = f32_fields(vals['dba'] if vals['dba'] is not None else jaccarddist(ref[1], ref[0]))
+        r['jab'] = fix47(vals['jab'] if vals['jab'] is not None else jaccard(*ref))
+        r['jba'] = fix47(vals['jba'] if vals['jba'] is not None else jaccard(ref[1], ref[0]))
+        r['refused'] = [k for k, v in vals.items() if v is None]
+        return r
+
+    def nontrivial(self, inp, rec):
+        return core.short_hash(inp) if inp['a'] and inp['b'] else None
+
+
 class RandomSets(Fam):
     name = 'random-sets'
     exhaustive = False
@@ -147,7 +189,7 @@ class RandomSets(Fam):
             yield dict(a=sorted(A), b=sorted(B), dta=dta, dtb=dtb)
 
 
-FAMILIES = [ExhaustiveSubsets, RandomSets]
+FAMILIES = [ExhaustiveSubsets, ByteOrder, RandomSets]
 
 
 def run(ctx):
